@@ -33,6 +33,7 @@ class LeafSpec:
     max_rows: Any = "exact"  # "exact" -> len(rows); None -> unbounded
     special: str | None = None  # "doomed" | "identity"
     leaf_name: str | None = None  # name given to the LeafRelation if different from the spec's key
+    parameters: tuple | None = None  # handed to the leaf as a LIST (LeafRelation.parameters is typed Any)
 
     def row_dicts(self):
         return tuple(dict(zip(self.cols, r)) for r in self.rows)
@@ -223,17 +224,20 @@ class Ctx:
         if s.special == "identity":
             return eng.make_join_identity_relation(name=s.name)
         lo, hi = s.bounds()
+        params = None if s.parameters is None else list(s.parameters)
         if kind == "it":
             rows = [{A.tag(c): v for c, v in zip(s.cols, r)} for r in s.rows]
             payload = payload_factory(s, rows) if payload_factory else iteration.RowSequence(rows)
             self.leaf_payloads[s.name] = payload
-            return LeafRelation(eng, cols, payload, name=s.leaf_name or s.name, min_rows=lo, max_rows=hi)
+            return LeafRelation(
+                eng, cols, payload, name=s.leaf_name or s.name, min_rows=lo, max_rows=hi, parameters=params
+            )
         table = db().table_for(("leaf", s.name, s.cols, s.rows), s.name, s.cols, s.row_dicts())
         payload = sql.Payload(
             from_clause=table, columns_available={A.tag(c): table.columns[c] for c in s.cols}
         )
         self.leaf_payloads[s.name] = payload
-        return eng.make_leaf(cols, payload, name=s.leaf_name or s.name, min_rows=lo, max_rows=hi)
+        return eng.make_leaf(cols, payload, name=s.leaf_name or s.name, min_rows=lo, max_rows=hi, parameters=params)
 
     # -- program application
     def operand(self, rel, operand):
